@@ -146,6 +146,16 @@ class RelModel:
                 return some(max(recv, key=lambda i: (i["end"], i["begin"])))
             return NotImplemented
 
+        def h_opmethod(ev, recv, args, node, env):
+            # any other method of TextSelectionOperator called on an operator value: follow it if it is unique
+            if not isinstance(recv, OpVal):
+                return NotImplemented
+            cands = [f for f in model.syn.fns if f.name == node.get("method") and (f.self_ty or "") == "TextSelectionOperator" and f.trait is None and f.body is not None]
+            if len(cands) != 1:
+                return NotImplemented
+            return model._call(ev, cands[0], recv, args)
+        ev.hooks["*"] = h_opmethod
+
         ev.hooks.update({"test": h_test, "test_set": h_test_set,
                          "toggle_negate": h_toggle(self.f_toggle_negate), "toggle_all": h_toggle(self.f_toggle_all),
                          "with_limit": h_toggle(self.f_with_limit),
